@@ -169,8 +169,7 @@ func (m *Model) Apply(e *Event) {
 				m.unlink(e.Path)
 			}
 		} else {
-			// directory rename: move the subtree in the model (treated as immediately durable in
-			// the parent once the parent is cut past it; rare in dolt: drop/undrop database)
+			// directory rename: move the subtree in the model (rare in dolt: drop/undrop database)
 			d1, b1 := splitRel(e.Path)
 			d2, b2 := splitRel(e.Path2)
 			m.dir(d1).ops = append(m.dir(d1).ops, dop{kind: EvRemove, name: b1, isDir: true})
@@ -207,6 +206,23 @@ func (m *Model) Apply(e *Event) {
 				}
 				m.linkAt[ino] = las
 			}
+			// the mkdir operations that lead to the moved directories name them by their key
+			for _, ds := range m.dirs {
+				for i := range ds.ops {
+					if op := &ds.ops[i]; op.kind == EvMkdir && (op.dir == e.Path || strings.HasPrefix(op.dir, pfx)) {
+						op.dir = e.Path2 + op.dir[len(e.Path):]
+					}
+				}
+			}
+			// A rename is one transaction of the file system's journal: the directory is at its old
+			// place or at its new one, never at both or at neither, and a journal that orders metadata
+			// commits everything both directories saw before. The model has one cut per directory and
+			// cannot tie two cuts together, so the rename of a directory counts as committed when it
+			// returns (a crash "before" it is the image in which it has not happened).
+			m.dir(d1).durable = len(m.dir(d1).ops)
+			m.dir(d2).durable = len(m.dir(d2).ops)
+			m.ancestorsDurable(d1)
+			m.ancestorsDurable(d2)
 		}
 	case EvRemove:
 		m.unlink(e.Path)
